@@ -2,6 +2,7 @@ package main
 
 import (
 	"fmt"
+	"github.com/unravelin/null"
 	"reflect"
 	"runtime"
 	"time"
@@ -36,6 +37,9 @@ func runPresence(c *Ctx) {
 			{Name: "MN", Type: reflect.MapOf(reflect.TypeOf(int8(0)), nullTypes[c.rng.Intn(len(nullTypes))]), Tag: `plenc:"5"`},
 			{Name: "Plain", Type: pointee, Tag: `plenc:"6"`},
 			{Name: "PP", Type: reflect.PointerTo(reflect.PointerTo(pointee)), Tag: `plenc:"7"`},
+			{Name: "NI", Type: tNullString, Tag: `plenc:"8,intern"`},
+			{Name: "SI", Type: reflect.TypeOf(""), Tag: `plenc:"9,intern"`},
+			{Name: "PI", Type: reflect.PointerTo(reflect.TypeOf("")), Tag: `plenc:"10,intern"`},
 		}
 		if cfg.ProtoArrays && isProtoSlice(pointee) {
 			continue
@@ -61,6 +65,9 @@ func runPresence(c *Ctx) {
 					pp.Elem().Set(reflect.New(pointee))
 				}
 				v.Field(6).Set(pp)
+				// present-but-empty in the interned positions
+				v.Field(7).Set(reflect.ValueOf(null.StringFrom("")))
+				v.Field(9).Set(reflect.ValueOf(new(string)))
 			}
 			c.addRT(tc, v, "presence")
 		}
@@ -285,6 +292,41 @@ func runBuild(c *Ctx) {
 		// accepted: it must then behave (smoke battery)
 		if _, err := tc.P.CodecForType(t); err == nil && !(cfg.ProtoArrays && protoUnsafe(t)) && !hugeIndex(t) {
 			c.addRT(tc, vg.Value(t, 2), "build-smoke")
+		}
+	}
+	// history: what one instance answers for a type must not depend on which related
+	// types it was asked about before (each answer is compared with the model, which
+	// is a function of the configuration and the type alone)
+	for h := 0; h < scale(c, 60, 1500); h++ {
+		cfg := randCfg(c)
+		tg := &TypeGen{r: c.rng, withNull: cfg.WithNull, proto: cfg.ProtoArrays}
+		shared := newInstance(cfg)
+		var base reflect.Type
+		switch c.rng.Intn(4) {
+		case 0:
+			base = reflect.MapOf([]reflect.Type{reflect.TypeOf(""), reflect.TypeOf(0)}[c.rng.Intn(2)], tg.Type(1))
+		case 1:
+			base = reflect.SliceOf(tg.Type(1))
+		case 2:
+			base = badKindTypes[c.rng.Intn(len(badKindTypes))]
+		default:
+			base = tg.Type(2)
+		}
+		wrap := func(t reflect.Type) reflect.Type {
+			return reflect.StructOf([]reflect.StructField{{Name: "F", Type: t, Tag: `plenc:"1"`}})
+		}
+		related := []reflect.Type{base, reflect.PointerTo(base), reflect.SliceOf(base), reflect.MapOf(reflect.TypeOf(""), base),
+			reflect.PointerTo(reflect.PointerTo(base)), reflect.SliceOf(reflect.PointerTo(base)),
+			wrap(base), wrap(reflect.PointerTo(base)), wrap(reflect.SliceOf(base)), wrap(reflect.MapOf(reflect.TypeOf(0), base)),
+			reflect.PointerTo(wrap(reflect.PointerTo(base)))}
+		c.rng.Shuffle(len(related), func(i, j int) { related[i], related[j] = related[j], related[i] })
+		for k, t := range related[:4+c.rng.Intn(len(related)-3)] {
+			tc := newTypeCase(t, cfg)
+			tc.P = shared
+			c.addBuild(tc, "", fmt.Sprintf("build-history step %d base=%s", k, base), "history")
+			if _, err := shared.CodecForType(t); err == nil && !(cfg.ProtoArrays && protoUnsafe(t)) && !hugeIndex(t) {
+				c.addRT(tc, vg.Value(t, 2), "build-history-smoke")
+			}
 		}
 	}
 	// bare kinds and the catalogue
